@@ -39,13 +39,20 @@ func coqFty(f Field) string {
 	return "FIface"
 }
 
-func coqDecl(d *Decl) string {
+func coqDecl(in *Input, d *Decl) string {
 	var kind string
 	switch d.Kind {
 	case DStruct:
 		var fs []string
 		for _, f := range d.Fields {
-			fs = append(fs, fmt.Sprintf("(%s, %s)", core.Hex(f.Name), coqFty(f)))
+			if f.Name == "_" {
+				// a blank field is no field of the model's struct: no Go program can read or write it, == ignores it and
+				// the repaired Frag skips it (fixes/C17-blank-field.diff): the model of a struct with blank fields is the
+				// model of the struct without them (before the repair the observed `out._ = in._` equals no model statement)
+				continue
+			}
+			// a field declared through an alias has the type the alias denotes (identical types)
+			fs = append(fs, fmt.Sprintf("(%s, %s)", core.Hex(f.Name), coqFty(in.resolve(f))))
 		}
 		kind = fmt.Sprintf("(DStruct %s %s)", hexList(d.TParams), core.CoqList(fs))
 	case DMap:
@@ -78,10 +85,13 @@ func coqRun(g GenRun) string {
 func coqCase(in *Input, obs *Observed, roots []*Decl) string {
 	var ds []string
 	for i := range in.Decls {
-		ds = append(ds, coqDecl(&in.Decls[i]))
+		if in.Decls[i].Kind == DAlias {
+			continue // an alias declares no type
+		}
+		ds = append(ds, coqDecl(in, &in.Decls[i]))
 	}
 	if in.hasIfaces() {
-		ds = append(ds, coqDecl(&Decl{Name: "Object", Kind: DIface}))
+		ds = append(ds, coqDecl(in, &Decl{Name: "Object", Kind: DIface}))
 	}
 	var runs []string
 	for _, g := range obs.Runs {
